@@ -130,6 +130,13 @@ def _inline_into(host, bb_index, callee, tymap):
                 ct['target'] = ct['target'] + bb_off
             if k == 'falseedge':
                 ct['imaginary'] = ct['imaginary'] + bb_off
+            if k == 'yield':
+                if isinstance(ct.get('drop'), int):
+                    ct['drop'] = ct['drop'] + bb_off
+                if isinstance(ct.get('resume_arg'), dict):
+                    ct['resume_arg'] = _map_place(ct['resume_arg'], loc_off)
+                if isinstance(ct.get('value'), dict):
+                    ct['value'] = _map_operand(ct['value'], loc_off)
             if k == 'switch':
                 ct['discr'] = _map_operand(ct['discr'], loc_off)
                 ct['targets'] = [[v, b + bb_off] for v, b in ct['targets']]
@@ -199,6 +206,162 @@ def _adapt_closure_call(host, t, closure):
     return nt
 
 
+def _visit_places(x, fn_):
+    if isinstance(x, dict):
+        if 'l' in x and isinstance(x.get('p'), list):
+            fn_(x)
+        for v in x.values():
+            _visit_places(v, fn_)
+    elif isinstance(x, list):
+        for e in x:
+            _visit_places(e, fn_)
+
+
+def _await_of(host, call_bb):
+    """The await that consumes the value returned by the call ending block call_bb: -> (poll block, its destination place) or None.
+    Shape (rustc's desugaring): d = f(..); e = IntoFuture::into_future(move d); x = move e; loop { p = Pin::new_unchecked(&mut x);
+    c = get_context(resume); r = Future::poll(p, c); match r { Ready(v) => break v, Pending => yield } }"""
+    t = host['blocks'][call_bb]['term']
+    if t.get('target') is None or t['dest']['p']:
+        return None
+    holders = {t['dest']['l']}
+    bb = t['target']
+    seen_into = False
+    for _ in range(10):
+        b = host['blocks'][bb]
+        for s_ in b['stmts']:
+            if s_['k'] == 'assign' and not s_['pl']['p']:
+                rv = s_['rv']
+                if rv['k'] == 'use' and rv['op']['k'] in ('move', 'copy') and not rv['op']['pl']['p'] and rv['op']['pl']['l'] in holders:
+                    holders.add(s_['pl']['l'])
+                elif rv['k'] == 'ref' and rv['pl']['l'] in holders:
+                    holders.add(s_['pl']['l'])
+        tt = b['term']
+        if tt is None or b['cleanup']:
+            return None
+        if tt['k'] == 'call':
+            name = tt['func'].get('fn') or ''
+            a0 = tt['args'][0] if tt['args'] else None
+            uses = a0 is not None and a0['k'] in ('move', 'copy') and a0['pl']['l'] in holders
+            if name.endswith('IntoFuture::into_future') and uses:
+                seen_into = True
+                holders.add(tt['dest']['l'])
+            elif name.endswith('Pin::new_unchecked') and uses:
+                holders.add(tt['dest']['l'])
+            elif name.endswith('future::get_context'):
+                pass
+            elif name == 'core::future::future::Future::poll' and uses and seen_into and not tt['dest']['p'] and tt['target'] is not None:
+                return bb, tt
+            else:
+                return None
+            bb = tt['target']
+        elif tt['k'] in ('goto', 'falseunwind', 'falseedge'):
+            bb = tt['target']
+        else:
+            return None
+        if bb is None:
+            return None
+    return None
+
+
+def _splice_await(host, call_bb, ctor, cor, tymap):
+    """`helper(args).await` where `helper` is a new async fn: its body (the coroutine `cor`) is spliced into the awaiting coroutine in place
+    of the poll loop, so that a poll coroutine split over async helper functions reads like the single body it was.  The awaited body's
+    own awaits stay awaits (its yields are kept).  Returns True when done."""
+    aw = _await_of(host, call_bb)
+    if aw is None:
+        return False
+    poll_bb, poll_t = aw
+    t = host['blocks'][call_bb]['term']
+    # the constructor returns `Coroutine { upvars: params.. }`: which call argument feeds which captured variable
+    agg = None
+    for b_ in ctor['blocks']:
+        for s_ in b_['stmts']:
+            if s_['k'] == 'assign' and s_['rv']['k'] == 'agg' and s_['rv'].get('ak') == 'coroutine' and s_['rv'].get('def') == cor['name'] and not s_['pl']['p'] and s_['pl']['l'] == 0:
+                agg = s_['rv']
+    if agg is None or len([b_ for b_ in ctor['blocks'] if not b_['cleanup']]) != 1:
+        return False
+    feeds = []
+    for o in agg.get('ops', []):
+        if o['k'] not in ('copy', 'move') or o['pl']['p'] or not (1 <= o['pl']['l'] <= len(t['args'])):
+            return False
+        feeds.append(t['args'][o['pl']['l'] - 1])
+    body = copy.deepcopy(cor)
+    base = len(body['locals'])
+    ups = body.get('upvars') or []
+    if len(ups) != len(feeds):
+        return False
+    for u in ups:
+        body['locals'].append({'ty': u['ty'], 'name': u.get('name')})
+
+    def rewrite(pl):
+        if pl['l'] == 1 and pl['p'] and pl['p'][0]['k'] == 'field' and isinstance(pl['p'][0].get('i'), int) and pl['p'][0]['i'] < len(ups):
+            pl['l'] = base + pl['p'][0]['i']
+            pl['p'] = pl['p'][1:]
+            pl['t'] = '_%d%s' % (pl['l'], ''.join('.?' for _ in pl['p']))
+    _visit_places(body['blocks'], rewrite)
+    loc_off = len(host['locals'])
+    sp = t['sp']
+    # a landing block: the awaited value becomes Poll::Ready(value) in the place the poll wrote, and control continues at the test of it
+    ret_ty = body['locals'][0]['ty']
+    tmp = {'ty': ret_ty}
+    host['locals'].append(tmp)
+    tmp_l = loc_off
+    loc_off += 1
+    land = len(host['blocks'])
+    pd = poll_t['dest']
+    # continue on the Ready edge of the test of the poll result (the Pending edge leads back into the poll loop, which is gone)
+    after_poll = poll_t['target']
+    swb = host['blocks'][after_poll]
+    if swb['term'] and swb['term']['k'] == 'switch' and any(s_['k'] == 'assign' and s_['rv']['k'] == 'discr' and s_['rv']['pl']['l'] == pd['l'] and not s_['rv']['pl']['p'] for s_ in swb['stmts']):
+        ready_ = [tb for v_, tb in swb['term']['targets'] if v_ == '0']
+        if ready_:
+            after_poll = ready_[0]
+        elif all(v_ != '0' for v_, tb in swb['term']['targets']):
+            after_poll = swb['term']['otherwise']
+    host['blocks'].append({'cleanup': False, 'stmts': [
+        {'k': 'assign', 'pl': pd, 'rv': {'k': 'agg', 'ak': 'adt', 'adt': 'core::task::poll::Poll', 'variant': 'Ready', 'vi': 0, 'fields': [], 'args': [],
+                                         'ops': [{'k': 'move', 'pl': {'l': tmp_l, 'p': [], 't': '_%d' % tmp_l, 'ty': ret_ty}}]}, 'sp': sp}],
+        'term': {'k': 'goto', 'target': after_poll, 'sp': sp}, 'inl': cor['name']})
+    # argument passing: captured variables and the resume argument (the awaiting coroutine's own)
+    pre = []
+    for i_, a in enumerate(feeds):
+        al = base + i_ + loc_off
+        pre.append({'k': 'assign', 'pl': {'l': al, 'p': [], 't': '_%d' % al, 'ty': ups[i_]['ty']}, 'rv': {'k': 'use', 'op': a}, 'sp': sp})
+    if len(host['locals']) > 2 and len(body['locals']) > 2:
+        pre.append({'k': 'assign', 'pl': {'l': 2 + loc_off, 'p': [], 't': '_%d' % (2 + loc_off), 'ty': body['locals'][2]['ty']},
+                    'rv': {'k': 'use', 'op': {'k': 'copy', 'pl': {'l': 2, 'p': [], 't': '_2', 'ty': host['locals'][2]['ty']}}}, 'sp': sp})
+    nt = dict(t)
+    nt['args'] = []
+    nt['dest'] = {'l': tmp_l, 'p': [], 't': '_%d' % tmp_l, 'ty': ret_ty}
+    nt['target'] = land
+    host['blocks'][call_bb]['term'] = nt
+    host['blocks'][call_bb]['stmts'] = host['blocks'][call_bb]['stmts'] + pre
+    assert len(host['locals']) == loc_off
+    _inline_into(host, call_bb, body, tymap)
+    host['blocks'][call_bb]['term']['spliced_await'] = cor['name']
+    # what was the poll loop is dead now: neutralise it (rules count polls, awaits and yields)
+    live, work = set(), [0]
+    while work:
+        bi = work.pop()
+        if bi in live or not isinstance(bi, int) or bi >= len(host['blocks']):
+            continue
+        live.add(bi)
+        tt = host['blocks'][bi]['term']
+        if not tt:
+            continue
+        for k_ in ('target', 'unwind', 'otherwise', 'drop'):
+            if isinstance(tt.get(k_), int):
+                work.append(tt[k_])
+        for v_, tb in tt.get('targets', []) or []:
+            work.append(tb)
+    for bi, b_ in enumerate(host['blocks']):
+        if bi not in live and b_['term'] is not None and b_['term']['k'] != 'unreachable':
+            b_['stmts'] = []
+            b_['term'] = {'k': 'unreachable', 'sp': b_['term']['sp'], 'dead_after_splice': True}
+    return True
+
+
 def flatten(j):
     """Returns the fact dict with new helper functions inlined at their in-crate call sites; marks them `helper`."""
     known = known_fns()
@@ -218,6 +381,7 @@ def flatten(j):
     if not helpers:
         return j, []
     done = {}
+    spliced = set()
 
     def flat(name, depth, stack):
         """Flattened copy of function `name`."""
@@ -250,6 +414,19 @@ def flatten(j):
                         callee = cname
                 if callee is None or callee in stack or callee == name or depth >= MAX_DEPTH:
                     continue
+                if f.get('coroutine') and not t.get('closure_call'):
+                    # `new_async_helper(..).await`: splice the helper's body in place of the await
+                    cname_ = callee + '::{closure#0}'
+                    cor_ = fns.get(cname_)
+                    if cor_ is not None and cor_.get('coroutine') and cname_ not in stack and not b['cleanup']:
+                        params_ = [g['name'] for g in fns[callee].get('generics', []) if g['kind'] != 'lifetime' and not g['name'].startswith('<')]
+                        fnargs_ = t['func'].get('fnargs', [])
+                        tymap_ = dict((p_, a_) for p_, a_ in zip(params_, fnargs_) if p_ != a_) if len(params_) == len(fnargs_) else {}
+                        corf_ = flat(cname_, depth + 1, stack | {name})
+                        if _splice_await(f, bi, fns[callee], corf_, tymap_):
+                            spliced.add(cname_)
+                            changed = True
+                            break
                 cf = flat(callee, depth + 1, stack | {name})
                 if len(cf['args_check']) != len(t['args']):
                     continue
@@ -278,6 +455,9 @@ def flatten(j):
             t = b['term']
             if t and t.get('inlined_call'):
                 inlined_in.setdefault(t['inlined_call'], nf.get('root') if nf['kind'] == 'Closure' else nf['name'])
+            if t and t.get('spliced_await'):
+                # the async fn whose body was spliced in: closures defined in that body now belong to the awaiting function
+                inlined_in.setdefault(t['spliced_await'][:-len('::{closure#0}')], nf.get('root') if nf['kind'] == 'Closure' else nf['name'])
     def final_host(h):
         seen = set()
         while h in helpers and h in inlined_in and h not in seen:
@@ -286,8 +466,10 @@ def flatten(j):
         return h
     inlined_in = dict((k, final_host(v)) for k, v in inlined_in.items())
     for nf in out_fns:
-        if nf['name'] in helpers:
+        if nf['name'] in helpers or nf['name'] in spliced:
             nf['helper'] = True
+            if nf['name'] in spliced:
+                nf['spliced'] = True
         if nf['kind'] == 'Closure' and nf.get('root') in helpers and nf['root'] in inlined_in:
             nf['orig_root'] = nf['root']
             nf['root'] = inlined_in[nf['root']]
